@@ -309,6 +309,8 @@ def decide_core(ck, key, recs, what, stage_names=("K5",), shrink_key=None, max_r
         o = r["o"]
         if o.get("in_err") != "0" or o.get("class") != "ok":
             continue
+        if r["tab"] == 0 and key not in ("c05", "c11"):
+            continue        # the properties quantify over tab_spaces >= 1 (a zero unit cannot nest list items)
         wf += 1
         if o.get(key) == "0":
             if shrink.in_known_class(o, key):
